@@ -152,13 +152,13 @@ Print Assumptions C18_and_wait_except_known.
 Theorem C18_and_wait_fuel : forall q timeout interval sw S (dev : device S) s tr,
   1 <= interval -> sane_device dev ->
   outcome (run (and_wait q timeout interval sw) dev s tr) <> Err OutOfFuel.
-Proof. intros q t i sw S dev s tr Hi Hd. exact (noof_and_wait q t i sw Hi S dev s tr Hd). Qed.
+Proof. exact (fun q t i sw S dev s tr Hi Hd => noof_and_wait q t i sw Hi S dev s tr Hd). Qed.
 Print Assumptions C18_and_wait_fuel.
 
 Theorem C18_install_fuel : forall file c tick S (dev : device S) s tr,
   1 <= tick -> sane_device dev ->
   outcome (run (install_component_from_file file c tick) dev s tr) <> Err OutOfFuel.
-Proof. intros f c t S dev s tr Ht Hd. exact (noof_install_file f c t Ht S dev s tr Hd). Qed.
+Proof. exact (fun f c t S dev s tr Ht Hd => noof_install_file f c t Ht S dev s tr Hd). Qed.
 Print Assumptions C18_install_fuel.
 
 (* the four *_and_wait methods are and_wait on a request that is followed up (waits) *)
